@@ -306,12 +306,45 @@ def gen_one_conflict(rng):
     return gen_follow_family(rng)
 
 
+def _left_factor(prods):
+    """textbook left factoring of ADJACENT alternatives with the same first symbol (used by the generator for rejection
+    sampling only, never as an oracle): A -> p x | p y  becomes  A -> p A'k ; A'k -> x | y, recursively."""
+    out = {}
+    counter = [0]
+
+    def factor(nt, alts):
+        res = []
+        i = 0
+        while i < len(alts):
+            j = i + 1
+            while j < len(alts) and alts[i] and alts[j] and alts[j][0] == alts[i][0]:
+                j += 1
+            chunk = alts[i:j]
+            if len(chunk) == 1:
+                res.append(chunk[0])
+            else:
+                n = 0
+                while all(len(a) > n for a in chunk) and len({a[n] for a in chunk}) == 1:
+                    n += 1
+                counter[0] += 1
+                z = f"{nt}'{counter[0]}"
+                res.append(chunk[0][:n] + (z,))
+                factor(z, [a[n:] for a in chunk])
+            i = j
+        out[nt] = res
+    for nt, alts in prods.items():
+        factor(nt, [tuple(a) for a in alts])
+    return out
+
+
 def gen_common_prefix(rng):
-    """an LL(1) grammar in which one alternative got an adjacent sibling with a common prefix, chosen so that the
+    """an LL(1) grammar in which one alternative got one or two adjacent siblings with a common prefix, chosen so that the
     LEFT-FACTORED grammar is LL(1) (independent check): not LL(1) as written, conflict-free once the constructor has
     factorized it.  Prefix of one terminal (the shape smart_factorization undoes again, so the two settings build
-    different tables from the one productions dict) or longer / starting with a non-terminal."""
-    for _ in range(600):
+    different tables from the one productions dict) or longer / starting with a non-terminal; with two siblings the
+    three alternatives share prefixes of different lengths, in every order (the one that diverges first in the middle,
+    first or last); half of those are kept even when the factored grammar still has a conflict."""
+    for _ in range(900):
         g = gen_ll1_candidate(rng)
         p = _plain(g)
         if L.ref_left_recursive(p) or not L.ref_is_ll1(p, g["start"]):
@@ -322,24 +355,34 @@ def gen_common_prefix(rng):
         nt, k = rng.choice(cands)
         alts = p[nt]
         alt = alts[k]
+
+        def rand_tail():
+            return tuple((rng.choice(g["terms"]) if rng.random() < 0.7 else rng.choice(g["nts"]))
+                         for _ in range(rng.randint(0, 2)))
         j = rng.randint(1, len(alt))
         if alt[0] in g["terms"] and rng.random() < 0.6:
             j = 1
-        tail2 = tuple((rng.choice(g["terms"]) if rng.random() < 0.7 else rng.choice(g["nts"]))
-                      for _ in range(rng.randint(0, 2)))
-        new = alt[:j] + tail2
-        if new in alts or tail2 == alt[j:]:
+        if rng.random() < 0.4:
+            if len(alt) < 2:
+                continue
+            j = rng.randint(1, len(alt) - 1)               # one sibling leaves the common prefix early,
+            group = [alt, alt[:j] + rand_tail(), alt[:rng.randint(j + 1, len(alt))] + rand_tail()]     # the other late
+        else:
+            group = [alt, alt[:j] + rand_tail()]
+        if len(set(group)) != len(group) or any(a in alts for a in group[1:]):
             continue
-        z = rng.choice([n for n in NT_POOL if n not in g["nts"]])
-        fact = dict(p)
-        fact[nt] = alts[:k] + [alt[:j] + (z,)] + alts[k + 1:]
-        fact[z] = [alt[j:], tail2]
-        if L.ref_left_recursive(fact) or not L.ref_is_ll1(fact, g["start"]):
-            continue
+        rng.shuffle(group)
         prods = dict(p)
-        prods[nt] = alts[:k] + ([alt, new] if rng.random() < 0.5 else [new, alt]) + alts[k + 1:]
+        prods[nt] = alts[:k] + group + alts[k + 1:]
         g2 = _mk(g["nts"], g["terms"], prods, g["start"])
         if L.ref_left_recursive(_plain(g2)) or _has_duplicate_alts(g2):
+            continue
+        if len(group) == 3 and rng.random() < 0.5:
+            # prefixes of different lengths inside one group: whatever the (adjacent-only) factorization makes of it,
+            # is_ambiguous() and the language are compared with the model and judged by the oracle
+            return g2
+        fact = _left_factor(prods)
+        if L.ref_left_recursive(fact) or not L.ref_is_ll1(fact, g["start"]):
             continue
         return g2
     return gen_ll1_candidate(rng)
@@ -888,7 +931,7 @@ LEVEL_TEXT = ("Partial.  Full theorems (model level, all grammars accepted by th
               "C02/Session.v): parse_does_not_change_tables, is_ambiguous_does_not_change_tables, session_history_independent, "
               "is_ambiguous_any_moment, parse_any_moment, objects_stay_as_constructed, built_object_answers (all trivial in the model, "
               "where a parser is a value: they say what the correspondence of programs checks about the implementation's objects), "
-              "ll1_reported_any_moment and ll1_complete_any_moment (the partial theorems below lifted to every moment of every "
+              "ll1_reported_any_moment_partial and ll1_complete_any_moment_partial (the partial theorems below lifted to every moment of every "
               "program).  Partial: ll1_reported_partial / "
               "ll1_reported_no_common_prefix (LL(1) as written => is_ambiguous() False) only when the factorization is the identity "
               "(factorization_identity: no two adjacent alternatives with the same first symbol), for other grammars only "
